@@ -197,6 +197,26 @@ def run(chk: common.Check, tier: str):
     for kf, res in zip(kfs, results[len(to_run):]):
         if crash_of(res):
             chk.known(kf["what"])
+    # instance condition of C13_every_reference_resolves: the module the generator model produces for each accepted grammar
+    import genmodel as gm
+    import runmodel as rm
+    rcases, rdescs = [], []
+    for text, desc in to_run:
+        try:
+            g = g2c.read_grammar(text)
+            tr = g2c.Translator()
+            rcases.append(f"({tr.grammar(g)}, {common.cN(len(tr.ids) + 1000)})")
+            rdescs.append(text)
+        except (SyntaxError, g2c.Untranslatable, ValueError):
+            continue
+    known_texts = {kf["witness"]["grammar"] for kf in kfs}
+    bad = common.run_cases(chk, "refs", rm.prelude(tokens_set()) + "From Pegen Require Import Proofs.ExecRefs.\n", "grammar * N", rcases,
+                           "fun c => match run_gen (fst c) (snd c) with inl m => refs_ok KINDS m | inr _ => true end", shard=150)
+    if bad is not None:
+        bad = [i for i in bad if rdescs[i] not in known_texts]
+        chk.oblige(f"instance condition of C13_every_reference_resolves on {len(rcases)} accepted grammars: in the generated "
+                   "module every called method exists or is a runtime primitive and every expect() argument is a literal",
+                   not bad, json.dumps([rdescs[i] for i in bad[:3]]))
     # a parser generated a SECOND time from the same grammar object must resolve every reference as well
     again = [(t, d) for t, d in to_run if any(c in t for c in "(*+?[.")][:60 if tier == "quick" else 600]
     results2 = common.run_parsers([{"grammar": t, "inputs": INPUTS, "regenerate": True} for t, _ in again])
